@@ -232,6 +232,67 @@ def nearestMesh {V : Type} (axes : List (Axis K)) (v : List Nat → V) (vecs : L
 
 end Scalar
 
+/-! ### `Resampling` and `linear_deform` end to end (round 4)
+
+Where the evaluation points come from: the nodes of a uniform grid as `uniform_discr` /
+`uniform_partition` compute them (`uniform_grid_fromintv` + `np.linspace`), the mesh of the
+range grid (`Resampling._call`) and the displaced grid points `x + v(x)` (`linear_deform`). -/
+
+section Grid
+variable {K : Type} [Add K] [Sub K] [Mul K] [Div K] [NatCast K] [OfNat K 0] [OfNat K 1]
+  [OfNat K 2] [LT K] [DecidableLT K]
+
+/-- One axis of `uniform_grid_fromintv(intv, n)` with `nodes_on_bdry=False` (the default of
+`uniform_discr` / `uniform_partition`): `gmin = a + (b - a) / (2 * n)`,
+`gmax = b - (b - a) / (2 * n)`, then `np.linspace(gmin, gmax, n)`:
+`step = (gmax - gmin) / (n - 1)`, `y = arange(n) * step + gmin`, and `y[-1] = gmax` when
+`n > 1`.  (For `n = 1` NumPy returns `[gmin]`; here `x / 0 = 0` gives the same.) -/
+def uniformNode (lo hi : K) (n i : Nat) : K :=
+  let gmin := lo + (hi - lo) / (2 * (n : K))
+  let gmax := hi - (hi - lo) / (2 * (n : K))
+  if i + 1 = n ∧ 1 < n then gmax
+  else (i : K) * ((gmax - gmin) / ((n : K) - 1)) + gmin
+
+/-- An axis of a uniformly discretised interval `[lo, hi]` with `n` cells. -/
+def uniformAxis (lo hi : K) (n : Nat) (s : Scheme) : Axis K := ⟨n, uniformNode lo hi n, s⟩
+
+/-- `grid.coord_vectors[j]` as a list. -/
+def Axis.nodes {K : Type} (a : Axis K) : List K := (List.range a.n).map a.c
+
+/-- `space.points()` (C order): one row per grid point. -/
+def gridPoints {K : Type} (axes : List (Axis K)) : List (List K) := cartesian (axes.map Axis.nodes)
+
+variable {V : Type} [Add V] [OfNat V 0] [SMul K V]
+
+/-- `per_axis_interpolator(...)` called with a mesh grid (dispatch as in `perAxisInterpolator`). -/
+def perAxisInterpolatorMesh (axes : List (Axis K)) (v : List Nat → V) (vecs : List (List K)) :
+    List V :=
+  if allNearest axes then nearestMesh axes v vecs else perAxisMesh axes v vecs
+
+/-- `Resampling(domain, range, interp)._call(x)`:
+`point_collocation(per_axis_interpolator(x, domain.grid.coord_vectors, interp), range.meshgrid)`
+— the interpolant of the domain data evaluated on the mesh of the RANGE grid, flat in C order.
+`dom` carries the coordinate vectors and schemes of the domain, of `ran` only the nodes are
+used. -/
+def resampling (dom ran : List (Axis K)) (v : List Nat → V) : List V :=
+  perAxisInterpolatorMesh dom v (ran.map Axis.nodes)
+
+/-- The points at which `linear_deform` evaluates the template: `points = space.points()`,
+`points[:, i] += displacement[i].ravel()` — grid point `k` moved by the `k`-th column of the
+`d × N` displacement matrix (one row per component, each flat in C order). -/
+def deformedPoints (axes : List (Axis K)) (disp : List (List K)) : List (List K) :=
+  List.zipWith (List.zipWith (· + ·)) (gridPoints axes) (columns disp)
+
+/-- `linear_deform(template, displacement, interp)` flat in C order: the template's per-axis
+interpolant at every displaced grid point.  (The code passes `points.T`, a `(d, N)` point
+array; that this convention evaluates the columns of `points.T`, i.e. the rows of `points`,
+one by one is `call_convention_invariant` on the model side and the stream `interp/array` on
+the code side; the transposition itself is NumPy's.) -/
+def linearDeform (axes : List (Axis K)) (v : List Nat → V) (disp : List (List K)) : List V :=
+  (deformedPoints axes disp).map (perAxisInterpolator axes v)
+
+end Grid
+
 /-- `_check_interp_input` for array-like (non-mesh) input of the given shape on a grid with `d`
 axes: `none` = `ValueError` ("bad input"), `some (isScalar, N)` = accepted as `N` points, the
 result being a Python scalar iff `isScalar`.  (1d: a scalar, `(n,)` or `(1, n)`; otherwise a
